@@ -28,7 +28,7 @@ theorem advance_ok (s : St) (g : Nat) (hnd : isDone s.closing = false)
     rw [List.mem_filterMap] at hd
     obtain ⟨k, _, hk⟩ := hd
     simpa using h k d hk
-  simp [step, hnd, hall]
+  simp [step, stepDone, stepLive, hnd, hall]
 
 /-- every task the library created -/
 theorem tasks_zero_of {s : St} (hp : s.producers = 0) (hk : s.consumers = 0) (hl : s.lostPending = false)
@@ -78,8 +78,11 @@ theorem closed_of_finishClose {s : St} (t0 w : Nat) (hp : s.producers = 0) (hk :
     (hl : s.lostPending = false) (hm : s.lostMid = false) (hr : s.recon = .idle)
     (hs : ∀ d ∈ s.devices, d.setup = .done) (hw : s.wopen = false) (hwr : s.writer = none)
     (hc : s.connected = false) (ht : s.now ≤ t0 + w) : Closed (finishClose s t0).1 t0 w := by
+  have hrc : (cancelConn s).recon = .idle := by unfold cancelConn; split <;> first | rfl | exact hr
+  have hdt := deviceTasks_after_shutdown s t0 hs
+  rw [finishClose_fst] at hdt ⊢
   refine ⟨s.now, rfl, ht, ?_, hw, hwr, hc⟩
-  exact tasks_zero_of hp hk hl hm hr (deviceTasks_after_shutdown s t0 hs)
+  exact tasks_zero_of hp hk hl hm hrc hdt
 
 theorem closeWriter_fst (s : St) : (closeWriter s).1 = { s with wopen := false } := by
   unfold closeWriter; split <;> rfl
@@ -110,14 +113,14 @@ theorem closed_of_halted {s : St} (h : Halted s) (t0 w : Nat) (ht : s.now ≤ t0
 theorem Closed.advance {s : St} {t0 w : Nat} (h : Closed s t0 w) (g : Nat) : Closed (step s (.advance g)).1 t0 w := by
   obtain ⟨t1, h1, h2, h3, h4, h5, h6⟩ := h
   have hd : isDone s.closing = true := by rw [h1]; rfl
-  have e : (step s (.advance g)).1 = { s with now := s.now + g } := by simp [step, hd]
+  have e : (step s (.advance g)).1 = { s with now := s.now + g } := by simp [step, stepDone, stepLive, hd]
   rw [e]; exact ⟨t1, h1, h2, h3, h4, h5, h6⟩
 
-theorem Closed.other {s : St} {t0 w : Nat} (h : Closed s t0 w) (e : Ev) (he : ∀ g, e ≠ .advance g) :
+theorem Closed.other {s : St} {t0 w : Nat} (h : Closed s t0 w) (e : Ev) (he : ∀ g, e ≠ .advance g) (hre : e ≠ .reopen) :
     (step s e).1 = s := by
   obtain ⟨t1, h1, _⟩ := h
   have hd : isDone s.closing = true := by rw [h1]; rfl
-  cases e <;> first | (simp [step, hd]; done) | exact absurd rfl (he _)
+  cases e <;> first | (simp [step, stepDone, stepLive, hd]; done) | exact absurd rfl (he _) | exact absurd rfl hre
 
 /-- a halted state whose `wait_closed()` is hanging: WRITER_TIMEOUT ends it -/
 theorem halted_wclosing_completes {s : St} (h : Halted s) (t0 dl w : Nat) (hc : s.closing = .wclosing t0 dl)
@@ -147,7 +150,7 @@ theorem halted_wclosing_completes {s : St} (h : Halted s) (t0 dl w : Nat) (hc : 
     have hc2 : w2.closing = .wclosing t0 dl := hc
     have hn2 : w2.now = dl := hnow
     have : ¬ (w2.now < dl) := by omega
-    simp [step, fire, deadline?, hc2, isDone, this]
+    simp [step, stepDone, stepLive, fire, deadline?, hc2, isDone, this]
   have hrun : (run s [.advance (dl - s.now), .tick .cwcloseTO]).1 = (finishClose { w2 with writer := none } t0).1 := by
     simp only [run, e3]; exact e4
   rw [hrun]
@@ -173,7 +176,7 @@ theorem shutdown_completes (s : St) (t0 : Nat) (hj : s.closing = .joined t0) (hr
     · cases hrr : s.recon <;> simp_all [reconOwner]
     · simp [h]
   have e1 : (step s .shutdownRun).1 = (shutdownTail (cancelProto s) t0).1 := by
-    have : step s .shutdownRun = shutdownRun s := by simp [step, hnd]
+    have : step s .shutdownRun = shutdownRun s := by simp [step, stepDone, stepLive, hnd]
     rw [this]; simp only [shutdownRun, hj, hrj, ↓reduceIte]
   have hsplit : run s [.shutdownRun, .advance writerTO, .tick .cwcloseTO]
       = run (step s .shutdownRun).1 [.advance writerTO, .tick .cwcloseTO] ∨ True := Or.inr trivial
@@ -196,7 +199,7 @@ theorem shutdown_completes (s : St) (t0 : Nat) (hj : s.closing = .joined t0) (hr
     have hcl : Closed (finishClose { x with writer := none } t0).1 t0 (s.now - t0 + writerTO) :=
       closed_of_halted hx t0 _ (by show s.now ≤ _; omega)
     have h2 := hcl.advance writerTO
-    have h3 := h2.other (.tick .cwcloseTO) (by intro g; simp)
+    have h3 := h2.other (.tick .cwcloseTO) (by intro g; simp) (by simp)
     simp only [run]
     rw [h3]; exact h2
 
@@ -273,7 +276,7 @@ theorem drain_step {s : St} {t0 dl : Nat} (h : Draining s t0 dl) (g : Nat) (hg :
   let b : St := { a with writeQ := rest, pphase := .reading (a.now + readerTO) }
   have e2 : (step a (.feed .foreign)).1 = latch b := by
     have hnda : isDone a.closing = false := hnd
-    simp [step, hnda, feed, hp0, hra, prodIO, hio, Feed.addr?, b]
+    simp [step, stepDone, stepLive, hnda, feed, hp0, hra, prodIO, hio, Feed.addr?, b]
   have hrun : (run s [.advance g, .feed .foreign]).1 = latch b := by
     simp only [run, e1]; exact e2
   simp only [hrun, hq, List.tail_cons]
@@ -389,7 +392,7 @@ theorem burst_step {s : St} {t0 : Nat} (h : DrainingB s t0) :
     simp [prodIO', hq, htid, h.drain]
   let b : St := { s with writeQ := rest, pphase := .reading (s.now + readerTO) }
   have e2 : (step s (.feed .foreign)).1 = latch b := by
-    simp [step, hnd, feed, hp0, h.reading, prodIO, hio, Feed.addr?, b]
+    simp [step, stepDone, stepLive, hnd, feed, hp0, h.reading, prodIO, hio, Feed.addr?, b]
   simp only [e2, hq, List.tail_cons]
   have hbc : b.closing = .joining t0 := h.closing
   have hunf : unfinished b = rest.length := by simp [unfinished, b, isWriting]
@@ -552,6 +555,11 @@ theorem grow_setupGo (s : St) : Grow s (setupGo s).1 := by
   · exact ⟨rfl, by simp, rfl⟩
   · exact Grow.refl _
 
+theorem grow_versionsGo (s : St) : Grow s (versionsGo s).1 := by
+  unfold versionsGo; split
+  · exact ⟨rfl, by simp, rfl⟩
+  · exact Grow.refl _
+
 theorem grow_park (s : St) (t : Target) : Grow s (park s t) := by
   cases t <;> exact ⟨rfl, Nat.le_refl _, rfl⟩
 
@@ -579,7 +587,7 @@ re-establishment queues one more start-master request than its producer sends) -
 theorem stuck_step {s : St} {t0 : Nat} (h : Stuck s t0) (e : Ev) (hf : isFeed e = false) : Stuck (step s e).1 t0 := by
   have hnd : isDone s.closing = false := by rw [h.closing]; rfl
   have hcl : s.closing ≠ .no := by rw [h.closing]; simp
-  unfold step
+  unfold step stepDone stepLive
   rw [hnd]
   simp only [Bool.false_eq_true, ↓reduceIte]
   cases e with
@@ -635,6 +643,8 @@ theorem stuck_step {s : St} {t0 : Nat} (h : Stuck s t0) (e : Ev) (hf : isFeed e 
     · exact stuck_lostFinish (s := { s with lostMid := false }) (h.of_grow ⟨rfl, Nat.le_refl _, rfl⟩)
   | shutdownRun => simp only [shutdownRun, h.closing]; exact h
   | setupGo => exact h.of_grow (grow_setupGo s)
+  | versionsGo => exact h.of_grow (grow_versionsGo s)
+  | reopen => exact h
   | gate a => exact h.of_grow (Frames.grow (frames_gateEv s a))
   | release => exact h.of_grow (Frames.grow (frames_release s))
   | take => exact h.of_grow (Frames.grow (frames_take s))
@@ -663,7 +673,7 @@ theorem dead_step {s : St} {t0 : Nat} (h : Dead s) (hc : s.closing = .joining t0
   have hnd : isDone s.closing = false := by rw [hc]; rfl
   have hcl : s.closing ≠ .no := by rw [hc]; simp
   have hp := h.prod
-  unfold step
+  unfold step stepDone stepLive
   rw [hnd]
   simp only [Bool.false_eq_true, ↓reduceIte]
   cases e with
@@ -697,6 +707,8 @@ theorem dead_step {s : St} {t0 : Nat} (h : Dead s) (hc : s.closing = .joining t0
   | lostRun2 => simp [lostRun2, h.lm]; exact h
   | shutdownRun => simp only [shutdownRun, hc]; exact h
   | setupGo => exact h.of_same (same_setupGo s)
+  | versionsGo => exact h.of_same (same_versionsGo s)
+  | reopen => exact h
   | gate a => exact h.of_same (frames_gateEv s a).same
   | release => exact h.of_same (frames_release s).same
   | take => exact h.of_same (frames_take s).same
@@ -735,6 +747,7 @@ theorem keepr_fireSetup (s : St) (a : Nat) : KeepR s (fireSetup s a).1 := by
       · rfl
 
 theorem setupGo_rj (s : St) : (setupGo s).1.rj = s.rj := by unfold setupGo; split <;> rfl
+theorem versionsGo_rj (s : St) : (versionsGo s).1.rj = s.rj := by unfold versionsGo; split <;> rfl
 theorem gateEv_rj (s : St) (a : Nat) : (gateEv s a).rj = s.rj := by unfold gateEv; split <;> rfl
 theorem park_rj (s : St) (t : Target) : (park s t).rj = s.rj := by cases t <;> rfl
 theorem park_closing (s : St) (t : Target) : (park s t).closing = s.closing := by cases t <;> rfl
@@ -746,7 +759,7 @@ theorem stuckread_step {s : St} (h : StuckRead s) (e : Ev) : StuckRead (step s e
   have hp := h.dead.prod
   have hidle : idle s = 0 := by unfold idle; rw [h.cons]; simp
   have R : KeepR s s := ⟨rfl, rfl, rfl, rfl, rfl, SameCore.refl s⟩
-  unfold step
+  unfold step stepDone stepLive
   rw [hnd]
   simp only [Bool.false_eq_true, ↓reduceIte]
   cases e with
@@ -788,6 +801,9 @@ theorem stuckread_step {s : St} (h : StuckRead s) (e : Ev) : StuckRead (step s e
     · exact h
   | setupGo =>
     exact h.keep ⟨by rw [(grow_setupGo s).closing], setupGo_rj s, (kq_setupGo s).rUnf, (kq_setupGo s).consumers, (kq_setupGo s).hand, same_setupGo s⟩
+  | versionsGo =>
+    exact h.keep ⟨by rw [(grow_versionsGo s).closing], versionsGo_rj s, (kq_versionsGo s).rUnf, (kq_versionsGo s).consumers, (kq_versionsGo s).hand, same_versionsGo s⟩
+  | reopen => exact h
   | gate a =>
     exact h.keep ⟨by rw [(frames_gateEv s a).closing], gateEv_rj s a, (kq_gateEv s a).rUnf, (kq_gateEv s a).consumers, (kq_gateEv s a).hand, (frames_gateEv s a).same⟩
   | release =>
